@@ -2,11 +2,14 @@
 """File a (buggy refactoring, correct twin) pair written by an independent sub-agent: the buggy version under
 /verif/seeded/<prop>-v<N>/ (tools/keep_seed.py: demo passes on the unchanged tree, fails with the patch, suite unchanged),
 the twin under /verif/benign/twin6-<prop>-<N>/ (tools/keep_benign.py: patch applies, equiv.py prints the same, checks
-silent); additionally the demo must pass with the twin applied. Usage: tools/keep_pair.py <src dir> <prop> <N>"""
+silent); additionally the demo must pass with the twin applied. Usage: tools/keep_pair.py <src dir> <prop> <N> [round]
+(round 6: seeded/<prop>-v<N>, benign/twin6-…; round 7: seeded/<prop>-w<N>, benign/twin7-…)"""
 import json, os, shutil, subprocess, sys, tempfile
 VERIF = os.path.dirname(os.path.dirname(os.path.abspath(__file__)))
 src, prop, n = sys.argv[1], sys.argv[2], sys.argv[3]
-sid, bid = f"{prop}-v{n}", f"twin6-{prop}-{n}"
+rnd = sys.argv[4] if len(sys.argv) > 4 else "6"
+letter = {"6": "v", "7": "w"}[rnd]
+sid, bid = f"{prop}-{letter}{n}", f"twin{rnd}-{prop}-{n}"
 for f in ("patch.diff", "twin.diff", "demo.py"):
     if not os.path.exists(os.path.join(src, f)):
         print(sid, "incomplete pair: missing", f); sys.exit(1)
@@ -34,7 +37,7 @@ shutil.rmtree(t, ignore_errors=True)
 mp = os.path.join(VERIF, "benign", bid, "meta.json")
 if os.path.exists(mp):
     m = json.load(open(mp)); m["twin_of_seed"] = sid; m["demo_exit_with_twin"] = twin_demo
-    m["origin"] = "correct twin of a seeded buggy refactoring, written by the same independent sub-agent (round 6)"
+    m["origin"] = "correct twin of a seeded buggy refactoring, written by the same independent sub-agent (round " + rnd + ")"
     json.dump(m, open(mp, "w"), indent=1)
 subprocess.run([os.path.join(VERIF, "tools", "keep_seed.py"), src, sid, prop])
 sm = os.path.join(VERIF, "seeded", sid, "meta.json")
